@@ -103,6 +103,65 @@ def project(mod, nfn, amax, resdir):
     return out
 
 
+def key_of(ref):
+    """(function id, argument, context id) of a FunctionReferenceWithArguments"""
+    return [fn_id(ref.fn_reference), ref.effective_kwargs.get("a", -1), ctx_id(ref.context_args)]
+
+
+_mech_installed = [False]
+
+
+def install_mech_recording(storage):
+    """external wrappers that log the runner's internal events (mechanism-level trace validation, TraceRunnerMech.tla)"""
+    from twosigma.memento import runner_local
+    if not _mech_installed[0]:
+        orig_prop = runner_local.propagate_dependencies
+
+        def prop(caller_memento, result_memento):
+            verif_side.log("Prop", key_of(caller_memento.invocation_metadata.fn_reference_with_args),
+                           key_of(result_memento.invocation_metadata.fn_reference_with_args))
+            return orig_prop(caller_memento=caller_memento, result_memento=result_memento)
+        runner_local.propagate_dependencies = prop
+        _mech_installed[0] = True
+    orig_memoize = storage.memoize
+
+    def memoize(key_override, memento, result):
+        k = key_of(memento.invocation_metadata.fn_reference_with_args)
+        try:
+            r = orig_memoize(key_override, memento, result)
+        except Exception:
+            verif_side.log("Memoize", k, False)
+            raise
+        verif_side.log("Memoize", k, True)
+        return r
+    storage.memoize = memoize
+
+
+def mech_events(op, items, ev):
+    name = op["op"]
+    out = []
+    if name == "Call":
+        out.append({"k": "call", "f": op["f"], "a": op["a"], "c": op["c"]})
+    elif name == "Batch":
+        out.append({"k": "batch", "f": op["f"], "args": list(op["args"]), "c": op["c"], "rf": bool(op["rf"])})
+    elif name == "Forget":
+        out.append({"k": "forget", "f": op["f"], "a": op["a"], "c": op["c"]})
+    elif name == "ForgetAll":
+        out.append({"k": "forgetall", "f": op["f"]})
+    for it in items:
+        if it[0] == "Body":
+            out.append({"k": "enter", "f": it[1], "a": it[2]})
+        elif it[0] == "Res":
+            out.append({"k": "res", "r": it[1]})
+        elif it[0] == "Memoize":
+            out.append({"k": "memoize", "key": it[1], "ok": bool(it[2])})
+        elif it[0] == "Prop":
+            out.append({"k": "prop", "caller": it[1], "callee": it[2]})
+    if name in ("Call", "Batch"):
+        out.append({"k": "end", "out": ev.get("out"), "check": ev.get("exc", "") == ""})
+    return out
+
+
 def run_job(job):
     base = tempfile.mkdtemp(prefix="verif_run_")
     old_env = Environment.get()
@@ -135,6 +194,8 @@ def run_job(job):
         Environment.set(Environment(name="verif", base_dir=base, repos=[ConfigurationRepository(
             name="r", clusters={"vr": FunctionCluster(name="vr", storage=storage, runner=runner)})]))
         mod = importlib.import_module(pkg + ".mod")
+        if job.get("mech"):
+            install_mech_recording(storage)
         nfn = len(job["prog"])
         amax = job.get("amax", 2)
         events = []
@@ -202,7 +263,10 @@ def run_job(job):
                     mod.FNS[op["f"]].forget_all()
                 except Exception as e:
                     ev["exc"] = type(e).__name__ + ": " + str(e)[:150]
-            ev["ran"] = [[it[1], it[2]] for it in verif_side.log.take() if it[0] == "Body"]
+            items = verif_side.log.take()
+            if job.get("mech"):
+                ev["mech"] = mech_events(op, items, ev)
+            ev["ran"] = [[it[1], it[2]] for it in items if it[0] == "Body"]
             ev["mem"] = project(mod, nfn, amax, resdir)
             events.append(ev)
         return {"cfg": {"prog": job["prog"], "backend": cfg}, "ev": events}
